@@ -5,7 +5,8 @@ from vf import build, common
 WRAPS = ("pthread_mutex_lock", "pthread_mutex_unlock", "memcpy", "memmove", "memset", "getrandom")
 RULE = ("E-sched: libsodium compiled with -fsanitize=thread instrumentation but linked against /verif/sched/rt.c instead of the TSan runtime; "
         "every load/store of the executable's .data/.bss, every pthread_mutex_lock/unlock and every memcpy/memset/getrandom touching "
-        ".data/.bss is a scheduling point; real pthreads serialised by futex hand-off; each execution in a forked child; stateless DFS "
+        ".data/.bss is a scheduling point (loads of bytes that no store ever touches in a sequential profiling run of init + every operation are "
+        "skipped - a load can only conflict with a store; stores outside that profile are counted and must be 0); real pthreads serialised by futex hand-off; each execution in a forked child; stateless DFS "
         "over 'which enabled thread runs next' with replay prefixes, default = keep running. Harness A: N threads each r = sodium_init(); then "
         "10 observations (feature flags + GCM availability, RNG name, guarded allocation incl. canary, generichash, onetimeauth, "
         "chacha20, salsa20, scalarmult_base, aegis128l, randombytes_buf): N=2 with <= 2 preemptions and N=3 with <= 1 (thorough: N=2 "
@@ -16,7 +17,8 @@ RULE = ("E-sched: libsodium compiled with -fsanitize=thread instrumentation but 
         "itself, with two neighbours and with allocation / RNG / init / misuse-handler in both orders, ~780 pairs) with <= 1 preemption; "
         "thorough = all 65x65 pairs with <= 1 and the core pairs with <= 2: results equal sequential results. Data race = two co-enabled threads whose "
         "pending accesses overlap with at least one write, checked at every choice point of every explored schedule. Complement "
-        "(sampled, reported separately): same bodies free-running under the real ThreadSanitizer runtime with 2/4/8/16 threads.")
+        "(sampled, reported separately): same bodies free-running under the real ThreadSanitizer runtime with 2/4/8/16 threads."
+        " Non-default backends: every operation against itself under the CPU-feature masks -avx512f, -avx2, -sse41, none (thorough: every mask of the chain, also -aesni/pclmul, <= 2 preemptions).")
 
 META = {
     "engine": "E-sched", "level": "model_checking",
@@ -54,6 +56,16 @@ def main(tier):
         r = common.run([e1] + a, label="c19-" + "-".join(a), timeout=6 * 3600)
         bounds.append("%s: %d executions" % (" ".join(a), r.stat("executions")))
         res.merge(r)
+    # the non-default backends (selected when CPU features are masked through the start-up hook) have their own code and their own scratch
+    # storage: every operation against itself under each masked configuration
+    from vf import configs as _cfg
+    for cfg in (_cfg.CHAIN[1], _cfg.CHAIN[2], _cfg.CHAIN[4], _cfg.NONE) if tier == "quick" else tuple(_cfg.CHAIN[1:]) + (_cfg.NONE, _cfg.NOAES):
+        a = ["pairs", "1", "self"] if tier == "quick" else ["pairs", "2", "self"]
+        r = common.run([e1] + a, env={"SODIUM_VERIF_CPU_DISABLE": cfg}, label="c19-self-" + cfg.replace(",", "_"), timeout=6 * 3600)
+        bounds.append("%s [-%s]: %d executions" % (" ".join(a), cfg, r.stat("executions")))
+        for f in r.fails: f[2].setdefault("env", {})["SODIUM_VERIF_CPU_DISABLE"] = cfg
+        r.fails = [(k + "/cpu-mask=" + cfg, d, o) for k, d, o in r.fails]
+        res.merge(r)
     comp = common.Result()
     for nt, reps in ((2, 10), (4, 10), (8, 10), (16, 10)) if tier == "quick" else ((2, 50), (4, 50), (8, 50), (16, 50)):
         comp.merge(common.run([e2, str(nt), str(reps)], env={"TSAN_OPTIONS": "halt_on_error=1 exitcode=66 report_signal_unsafe=0"},
@@ -65,7 +77,7 @@ def main(tier):
            "evaluations": res.stat("executions"), "distinct_nontrivial": res.stat("executions"),
            "schedules_executed": res.stat("executions"), "choice_points_visited": res.stat("choice_points"),
            "max_choice_points_in_one_schedule": res.stat("max_points"),
-           "bounds_completed": bounds, "distinct_init_outcomes": outcomes, "races_found": res.stat("races"),
+           "bounds_completed": bounds, "distinct_init_outcomes": outcomes, "races_found": res.stat("races"), "stores_outside_written_location_profile": res.stat("profile_misses"),
            "complement_runs": comp.stat("complement_runs"), "rule": RULE, "exhaustive": True}
     common.finish("C19", tier, "model_checking", res, cov,
                   ["sequentially consistent interleavings at hooked accesses only",
